@@ -30,7 +30,7 @@ ISIZE_MIN = -2 ** 63
 
 # numbers: every representation and boundary; all NaN-free
 NUM_ATOMS = [
-    I(0), F(0.0), NEG_ZERO, B(0), D("0.0"), D("-0"), D("0e5"),
+    I(0), F(0.0), NEG_ZERO, B(0), D("0.0"), D("-0.0"), D("0e5"),
     I(1), F(1.0), B(1), D("1.0"), D("1e0"), D("10e-1"), D("1.00"),
     I(-1), F(-1.0), B(-1), D("-1.0"),
     I(2), F(2.0), I(3), F(0.5), D("0.5"), F(1.5), F(-0.5), D("1.10"), F(1.1),
